@@ -17,7 +17,10 @@ def auditModule (mod : Name) : IO Json := do
   for (n, ci) in consts do
     if env.getModuleIdxFor? n == some idx then
       match ci with
-      | .thmInfo _ => if !n.isInternal && (`Glom.Props).isPrefixOf n then names := names.push n
+      | .thmInfo _ =>
+        let last := n.getString!
+        if !n.isInternal && (`Glom.Props).isPrefixOf n && !last.startsWith "eq_" && !last.startsWith "match_" then
+          names := names.push n
       | _ => pure ()
   let sorted := names.qsort (fun a b => a.toString < b.toString)
   for n in sorted do
